@@ -362,7 +362,25 @@ func cmdCheck(args []string) int {
 				continue
 			}
 			conformSeen[seenKey] = true
-			if kf := matchKnown(known, prop, name); kf != nil {
+			if prop == "ALL" {
+				// (seed matrix) a listed finding excuses the failure only for the properties
+				// it is listed under
+				ps := f.props
+				if len(ps) == 0 {
+					ps = r.props
+				}
+				var left []string
+				for _, q := range ps {
+					if matchKnown(known, q, name) == nil {
+						left = append(left, q)
+					}
+				}
+				if len(left) == 0 {
+					knownHit = append(knownHit, name)
+					continue
+				}
+				f.props = left
+			} else if kf := matchKnown(known, prop, name); kf != nil {
 				fmt.Printf("KNOWN-FINDING: property=%s %s [%s]\n", prop, kf.Description, name)
 				knownHit = append(knownHit, name)
 				continue
